@@ -2,12 +2,28 @@ use vstd::prelude::*;
 verus! {
 // ---- std shims shared by all units (each assume_specification restates the std documentation) ----
 #[verifier::external_type_specification]
-#[verifier::external_body]
 pub struct ExIoErrorKind(std::io::ErrorKind);
+
+pub assume_specification<'a, T: Copy>[ Option::<&'a T>::copied ](o: Option<&'a T>) -> (r: Option<T>)
+    ensures r == (match o { Some(x) => Some(*x), None => None });
 
 pub assume_specification[ usize::div_ceil ](a: usize, b: usize) -> (r: usize)
     requires b != 0
     ensures r as int == (a as int + b as int - 1) / (b as int);
+// ---- std::io::Error / ErrorKind: opaque values with an uninterpreted `kind` ----
+#[verifier::external_type_specification]
+#[verifier::external_body]
+pub struct ExIoError(std::io::Error);
+
+pub uninterp spec fn io_error_kind(e: std::io::Error) -> std::io::ErrorKind;
+
+pub assume_specification[ std::io::Error::kind ](e: &std::io::Error) -> (r: std::io::ErrorKind)
+    ensures r == io_error_kind(*e);
+
+pub assume_specification[ <std::io::Error as From<std::io::ErrorKind>>::from ](k: std::io::ErrorKind) -> (r: std::io::Error)
+    ensures io_error_kind(r) == k;
+
+pub uninterp spec fn nz_value(n: std::num::NonZeroUsize) -> usize;
 
 // module tree of the rodbus crate (contents are fragments; every item text comes from /repo)
 pub mod error {
@@ -97,6 +113,16 @@ pub enum InvalidRequest {
     CountTooBigForType(u16, u16),
 }
 
+impl FromSpecImpl<std::io::Error> for RequestError {
+    open spec fn obeys_from_spec() -> bool { true }
+    open spec fn from_spec(err: std::io::Error) -> Self { RequestError::Io(crate::io_error_kind(err)) }
+}
+impl From<std::io::Error> for RequestError {
+fn from(err: std::io::Error) -> (r: Self)
+{
+        RequestError::Io(err.kind())
+    }
+}
 impl FromSpecImpl<InvalidRequest> for RequestError {
     open spec fn obeys_from_spec() -> bool { true }
     open spec fn from_spec(err: InvalidRequest) -> Self { RequestError::BadRequest(err) }
@@ -165,6 +191,53 @@ impl From<InvalidRange> for RequestError {
 fn from(x: InvalidRange) -> (r: Self)
 {
         RequestError::BadRequest(x.into())
+    }
+}
+
+use crate::shims::scursor;
+use crate::shims::scursor::WriteError;
+
+impl FromSpecImpl<WriteError> for RequestError {
+    open spec fn obeys_from_spec() -> bool { true }
+    open spec fn from_spec(err: WriteError) -> Self {
+        match err {
+            WriteError::WriteOverflow { remaining, written } => RequestError::Internal(InternalError::InsufficientWriteSpace(written, remaining)),
+            WriteError::NumericOverflow => RequestError::Internal(InternalError::BadSeekOperation),
+            WriteError::BadSeek { length, pos } => RequestError::Internal(InternalError::BadSeekOperation),
+        }
+    }
+}
+impl From<WriteError> for RequestError {
+fn from(err: WriteError) -> (r: Self)
+{
+        match err {
+            WriteError::WriteOverflow { remaining, written } => {
+                RequestError::Internal(InternalError::InsufficientWriteSpace(written, remaining))
+            }
+            WriteError::NumericOverflow | WriteError::BadSeek { .. } => {
+                RequestError::Internal(InternalError::BadSeekOperation)
+            }
+        }
+    }
+}
+impl FromSpecImpl<scursor::ReadError> for RequestError {
+    open spec fn obeys_from_spec() -> bool { true }
+    open spec fn from_spec(e: scursor::ReadError) -> Self { RequestError::BadResponse(AduParseError::InsufficientBytes) }
+}
+impl From<scursor::ReadError> for RequestError {
+fn from(_p0: scursor::ReadError) -> (r: Self)
+{
+        RequestError::BadResponse(AduParseError::InsufficientBytes)
+    }
+}
+impl FromSpecImpl<scursor::TrailingBytes> for RequestError {
+    open spec fn obeys_from_spec() -> bool { true }
+    open spec fn from_spec(x: scursor::TrailingBytes) -> Self { RequestError::BadResponse(AduParseError::TrailingBytes(x.count.v)) }
+}
+impl From<scursor::TrailingBytes> for RequestError {
+fn from(x: scursor::TrailingBytes) -> (r: Self)
+{
+        RequestError::BadResponse(AduParseError::TrailingBytes(x.count.get()))
     }
 }
 
@@ -313,11 +386,17 @@ pub mod types {
 use vstd::prelude::*;
 use crate::error::*;
 
-#[derive(Clone, Copy, PartialEq, Eq)]
+#[derive(Clone, Copy)]
 pub struct UnitId {
     
     pub value: u8,
 }
+impl vstd::std_specs::cmp::PartialEqSpecImpl for UnitId {
+    open spec fn obeys_eq_spec() -> bool { true }
+    open spec fn eq_spec(&self, other: &Self) -> bool { self.value == other.value }
+}
+impl PartialEq for UnitId { fn eq(&self, other: &Self) -> bool { self.value == other.value } }
+
 #[derive(Clone, Copy, PartialEq, Eq)]
 pub struct AddressRange {
     
@@ -400,6 +479,12 @@ impl UnitId {
     ensures r.value == 0,
 {
         Self { value: 0x00 }
+    }
+    
+    pub fn is_rtu_reserved(&self) -> (r: bool)
+    ensures r == (self.value >= 248),
+{
+        self.value >= 248
     }
 }
 
@@ -570,6 +655,163 @@ pub fn next(&mut self) -> (r: Option<Indexed<bool>>)
 
 }
 
+pub mod shims {
+    pub mod scursor {
+// ---- shim of the `scursor` crate (trusted model of its documented behaviour; cross-checked against the real crate by the Kani
+// conformance harnesses, and every Kani harness of rodbus functions runs on the REAL scursor) ----
+use vstd::prelude::*;
+use vstd::slice::slice_subrange;
+
+pub struct ReadError;
+pub struct Count { pub v: usize }
+impl Count { pub fn get(self) -> (r: usize) ensures r == self.v, { self.v } }
+pub struct TrailingBytes { pub count: Count }
+
+// a read cursor over a byte slice: `rest` = the bytes not yet consumed
+pub struct ReadCursor<'a> { pub input: &'a [u8], pub pos: usize }
+impl<'a> ReadCursor<'a> {
+    pub open spec fn wf(&self) -> bool { self.pos <= self.input@.len() }
+    pub open spec fn rest(&self) -> Seq<u8> { self.input@.subrange(self.pos as int, self.input@.len() as int) }
+
+    pub fn new(input: &'a [u8]) -> (r: Self) ensures r.wf(), r.rest() == input@, { Self { pos: 0, input } }
+
+    pub fn read_u8(&mut self) -> (r: Result<u8, ReadError>)
+        requires old(self).wf(),
+        ensures final(self).wf(), final(self).input == old(self).input,
+            r is Ok <==> old(self).rest().len() >= 1,
+            r is Ok ==> r->Ok_0 == old(self).rest()[0] && final(self).rest() == old(self).rest().subrange(1, old(self).rest().len() as int),
+            r is Err ==> final(self).rest() == old(self).rest(),
+    {
+        if self.pos < self.input.len() { let v = self.input[self.pos]; self.pos = self.pos + 1; Ok(v) } else { Err(ReadError) }
+    }
+    pub fn read_u16_be(&mut self) -> (r: Result<u16, ReadError>)
+        requires old(self).wf(),
+        ensures final(self).wf(), final(self).input == old(self).input,
+            r is Ok <==> old(self).rest().len() >= 2,
+            r is Ok ==> r->Ok_0 as int == old(self).rest()[0] as int * 256 + old(self).rest()[1] as int
+                && final(self).rest() == old(self).rest().subrange(2, old(self).rest().len() as int),
+            r is Err ==> final(self).rest() == old(self).rest(),
+    {
+        if self.input.len() - self.pos >= 2 {
+            let hi = self.input[self.pos] as u16; let lo = self.input[self.pos + 1] as u16;
+            self.pos = self.pos + 2;
+            assert((hi << 8) | lo == hi * 256 + lo) by (bit_vector) requires hi < 256, lo < 256;
+            Ok((hi << 8) | lo)
+        } else { Err(ReadError) }
+    }
+    pub fn read_bytes(&mut self, count: usize) -> (r: Result<&'a [u8], ReadError>)
+        requires old(self).wf(),
+        ensures final(self).wf(), final(self).input == old(self).input,
+            r is Ok <==> count <= old(self).rest().len(),
+            r is Ok ==> r->Ok_0@ == old(self).rest().subrange(0, count as int)
+                && final(self).rest() == old(self).rest().subrange(count as int, old(self).rest().len() as int),
+            r is Err ==> final(self).rest() == old(self).rest(),
+    {
+        if count <= self.input.len() - self.pos {
+            let ret = slice_subrange(self.input, self.pos, self.pos + count);
+            self.pos = self.pos + count;
+            Ok(ret)
+        } else { Err(ReadError) }
+    }
+    pub fn expect_empty(&self) -> (r: Result<(), TrailingBytes>)
+        requires self.wf(),
+        ensures r is Ok <==> self.rest().len() == 0,
+            r is Err ==> r->Err_0.count.v == self.rest().len(),
+    {
+        if self.input.len() - self.pos == 0 { Ok(()) } else { Err(TrailingBytes { count: Count { v: self.input.len() - self.pos } }) }
+    }
+    pub fn remaining(&self) -> (r: usize) requires self.wf(), ensures r == self.rest().len(), { self.input.len() - self.pos }
+    pub fn is_empty(&self) -> (r: bool) requires self.wf(), ensures r == (self.rest().len() == 0), { self.input.len() - self.pos == 0 }
+}
+
+pub enum WriteError {
+    NumericOverflow,
+    WriteOverflow { remaining: usize, written: usize },
+    BadSeek { length: usize, pos: usize },
+}
+
+// a write cursor over a mutable byte slice.  `buf()` is the whole underlying buffer, `pos` the write position;
+// the last clause of every contract says the cursor keeps writing into the same borrowed memory (prophecy of the &mut)
+pub struct WriteCursor<'a> { pub dest: &'a mut [u8], pub pos: usize }
+impl<'a> WriteCursor<'a> {
+    pub open spec fn wf(&self) -> bool { self.pos <= self.dest@.len() }
+    pub open spec fn buf(&self) -> Seq<u8> { self.dest@ }
+    pub open spec fn cap(&self) -> nat { self.dest@.len() }
+
+    pub fn new(dest: &'a mut [u8]) -> (r: WriteCursor<'a>)
+        ensures r.pos == 0, r.wf(), r.buf() == old(dest)@, final(r.dest)@ == final(dest)@,
+    { WriteCursor { dest, pos: 0 } }
+
+    pub fn position(&self) -> (r: usize) ensures r == self.pos, { self.pos }
+
+    pub fn get(&self, range: core::ops::Range<usize>) -> (r: Option<&[u8]>)
+        ensures r is Some <==> (range.start <= range.end && range.end <= self.cap()),
+            r is Some ==> r->Some_0@ == self.buf().subrange(range.start as int, range.end as int),
+    {
+        if range.start <= range.end && range.end <= self.dest.len() { Some(slice_subrange(self.dest, range.start, range.end)) } else { None }
+    }
+
+    pub fn skip(&mut self, count: usize) -> (r: Result<(), WriteError>)
+        requires old(self).wf(),
+        ensures final(self).wf(), final(self).buf() == old(self).buf(), final(final(self).dest)@ == final(old(self).dest)@,
+            r is Ok <==> old(self).pos + count <= old(self).cap(),
+            r is Ok ==> final(self).pos == old(self).pos + count,
+            r is Err ==> final(self).pos == old(self).pos,
+    {
+        if count <= self.dest.len() - self.pos { self.pos = self.pos + count; Ok(()) } else { Err(WriteError::NumericOverflow) }
+    }
+    pub fn seek_to(&mut self, pos: usize) -> (r: Result<(), WriteError>)
+        ensures final(self).buf() == old(self).buf(), final(final(self).dest)@ == final(old(self).dest)@,
+            r is Ok <==> pos <= old(self).cap(),
+            r is Ok ==> final(self).pos == pos,
+            r is Err ==> final(self).pos == old(self).pos,
+    {
+        if pos <= self.dest.len() { self.pos = pos; Ok(()) } else { Err(WriteError::BadSeek { length: self.dest.len(), pos }) }
+    }
+    pub fn write_u8(&mut self, value: u8) -> (r: Result<(), WriteError>)
+        requires old(self).wf(),
+        ensures final(self).wf(), final(self).cap() == old(self).cap(), final(final(self).dest)@ == final(old(self).dest)@,
+            r is Ok <==> old(self).pos < old(self).cap(),
+            r is Ok ==> final(self).pos == old(self).pos + 1 && final(self).buf() == old(self).buf().update(old(self).pos as int, value),
+            r is Err ==> final(self).pos == old(self).pos && final(self).buf() == old(self).buf(),   // a failed write has no effect
+    {
+        if self.pos < self.dest.len() { self.dest[self.pos] = value; self.pos = self.pos + 1; Ok(()) }
+        else { Err(WriteError::WriteOverflow { remaining: 0, written: 1 }) }
+    }
+    pub fn write_u16_be(&mut self, value: u16) -> (r: Result<(), WriteError>)
+        requires old(self).wf(),
+        ensures final(self).wf(), final(self).cap() == old(self).cap(), final(final(self).dest)@ == final(old(self).dest)@,
+            r is Ok <==> old(self).pos + 2 <= old(self).cap(),
+            r is Ok ==> final(self).pos == old(self).pos + 2
+                && final(self).buf() == old(self).buf().update(old(self).pos as int, (value / 256) as u8).update(old(self).pos + 1, (value % 256) as u8),
+            r is Err ==> final(self).pos == old(self).pos && final(self).buf() == old(self).buf(),
+    {
+        if self.dest.len() - self.pos >= 2 {
+            self.dest[self.pos] = (value / 256) as u8; self.dest[self.pos + 1] = (value % 256) as u8; self.pos = self.pos + 2; Ok(())
+        } else { Err(WriteError::WriteOverflow { remaining: self.dest.len() - self.pos, written: 2 }) }
+    }
+    pub fn write_u16_le(&mut self, value: u16) -> (r: Result<(), WriteError>)
+        requires old(self).wf(),
+        ensures final(self).wf(), final(self).cap() == old(self).cap(), final(final(self).dest)@ == final(old(self).dest)@,
+            r is Ok <==> old(self).pos + 2 <= old(self).cap(),
+            r is Ok ==> final(self).pos == old(self).pos + 2
+                && final(self).buf() == old(self).buf().update(old(self).pos as int, (value % 256) as u8).update(old(self).pos + 1, (value / 256) as u8),
+            r is Err ==> final(self).pos == old(self).pos && final(self).buf() == old(self).buf(),
+    {
+        if self.dest.len() - self.pos >= 2 {
+            self.dest[self.pos] = (value % 256) as u8; self.dest[self.pos + 1] = (value / 256) as u8; self.pos = self.pos + 2; Ok(())
+        } else { Err(WriteError::WriteOverflow { remaining: self.dest.len() - self.pos, written: 2 }) }
+    }
+}
+// "cursor `n` extends cursor `o` by exactly the bytes `out`" - the frame condition of every serializer
+pub open spec fn appended(o: &WriteCursor, n: &WriteCursor, out: Seq<u8>) -> bool {
+    n.wf() && n.cap() == o.cap() && n.pos == o.pos + out.len()
+    && (forall|i: int| 0 <= i < o.pos ==> #[trigger] n.buf()[i] == o.buf()[i])
+    && (forall|i: int| 0 <= i < out.len() ==> #[trigger] n.buf()[o.pos + i] == out[i])
+}
+
+    }
+}
 pub mod common {
     pub mod bits {
 use vstd::prelude::*;
